@@ -216,7 +216,10 @@ def unit_bounded_text(U):
                         att["Parent"] = ps
                     feats.append(F.Feature(seqid="c", featuretype="t%d" % k, start=k + 1, end=k + 5, attributes=att))
                 cases += 1
-                text = "\n".join(lines) + "\n"
+                # the last line with and without its line terminator (alternating), CRLF now and then
+                text = "\n".join(lines) + ("\n" if cases % 2 else "")
+                if cases % 5 == 0:
+                    text = text.replace("\n", "\r\n")
                 try:
                     db = gffutils.create_db(text, ":memory:", from_string=True, checklines=checklines)
                     rel = {(r["parent"], r["child"], r["level"]) for r in db.execute("SELECT parent, child, level FROM relations")}
@@ -235,7 +238,7 @@ def unit_bounded_text(U):
                 except Exception as e:
                     fails.append({"case": {"text": text, "checklines": checklines}, "expected": "no exception", "observed": repr(e)})
     U.bounded_result("C02.bounded.text", "GFF3 text in either spelling of several parents (and mixtures) gives the Parent graph, in every line order",
-                     "4 multi-parent graphs x line permutations x {comma list, repeated Parent keys, comma lists in a file whose dialect has repeated keys} x checklines {10, 1}", cases, fails)
+                     "4 multi-parent graphs x line permutations x {comma list, repeated Parent keys, comma lists in a file whose dialect has repeated keys} x checklines {10, 1}; last line with / without terminator, LF / CRLF", cases, fails)
 
 
 def unit_schema(U):
